@@ -79,7 +79,8 @@ def gen_history(st):
             o["penalty"] = rng.choice([0.1, 0.5, 1.0])
         if rng.below(4) == 0:
             p = rng.below(min(minlen - 1, 2) + 1)     # psi == series length allows an empty alignment: a degenerate combination
-            o["psi"] = p if "window" not in o else min(p, o["window"])
+            p = p if "window" not in o else min(p, o["window"])
+            o["psi"] = p if rng.below(2) else [p, rng.below(p + 1), rng.below(p + 1), p]      # one integer or a 4-element list
         if rng.below(5) == 0:
             o["max_step"] = rng.choice([1.5, 2.5])
         if rng.below(5) == 0:
@@ -728,7 +729,7 @@ def signature(history, viol):
             cr = next((o for o in ops if o["op"].startswith("new_") and o.get("obj") == op["obj"]), None)
             if cr:
                 feats.append(cr["op"][4:])
-                if cr["op"] == "new_ss" and cr.get("dict") is not None and cr["dict"] < len(history["setup"]["dicts"]) and history["setup"]["dicts"][cr["dict"]].get("psi"):
+                if cr["op"] == "new_ss" and cr.get("dict") is not None and cr["dict"] < len(history["setup"]["dicts"]) and history["setup"]["dicts"][cr["dict"]].get("psi") not in (None, 0, [0, 0, 0, 0]):
                     feats.append("psi-relaxation")
         if op.get("use_c"):
             feats.append("use_c")
@@ -748,7 +749,7 @@ def shrink(h):
         for k in list(d):
             s2 = copy.deepcopy(setup); del s2["dicts"][di][k]
             out.append({"setup": s2, "ops": copy.deepcopy(h["ops"])})
-    maxpsi = max([d.get("psi", 0) for d in setup["dicts"]] + [0])
+    maxpsi = max([(max(d["psi"]) if isinstance(d.get("psi"), list) else d.get("psi", 0)) for d in setup["dicts"]] + [0])
     for i, s in enumerate(setup["series"]):
         # keep every series longer than the largest psi (psi == length is a degenerate combination)
         if setup.get("overlap") and i in setup["overlap"][:2]:
